@@ -73,7 +73,16 @@ LcBeginL(ps, frag, strict) ==
        ELSE [p0 EXCEPT !.mode = "frag", !.frag = frag, !.open = <<"html">>,                  \* beforeHtml.insertHtmlElement()
                        !.phase = IF frag = "table" THEN "inTable" ELSE "inBody",   \* resetInsertionMode()
                        !.outside = frag \notin Containers]
-LcBegin(ps, frag, strict) == LcBeginL(ps, LowerName(frag), strict)
+\* Argument values outside the documented domain of `container` (None, the empty string, a non-string; the harness writes
+\* them "#None", "#empty", "#int"): the call is REJECTED - it raises before a single token is read, on every object alike,
+\* and leaves the persistent fields alone.  (A value that is not accepted must not acquire a meaning that depends on
+\* what the object parsed before.)
+BadContainers == {"#None", "#empty", "#int"}
+LcBegin(ps, frag, strict) ==
+    IF frag \in BadContainers
+    THEN [ps EXCEPT !.strict = strict, !.mode = "frag", !.frag = frag, !.phase = "rejected", !.open = <<>>, !.items = <<>>, !.tbl = 0,
+                    !.errors = <<>>, !.quirks = FALSE, !.form = FALSE, !.aborted = FALSE, !.outside = FALSE, !.fired = {}]
+    ELSE LcBeginL(ps, LowerName(frag), strict)
 
 Stop(ps) == ps.aborted \/ ps.outside
 ChildDepth(ps) == IF ps.mode = "doc" THEN Len(ps.open) ELSE Len(ps.open) - 1
@@ -272,7 +281,7 @@ PInTable(ps, tok) ==
 \* the same call starts over on the same object; the recorder marks the point with the pseudo token "Reparse"
 Reparse(ps) == LET p1 == LcBegin(ps, ps.frag, ps.strict) IN [p1 EXCEPT !.fired = @ \cup ps.fired]
 Process(ps, tok) ==
-    IF Stop(ps) THEN ps
+    IF Stop(ps) \/ ps.phase = "rejected" THEN ps
     ELSE IF tok.k = "Reparse" THEN Reparse(ps)
     ELSE IF ps.phase = "done" THEN ps
     ELSE IF tok.k = "ParseError" THEN Err(ps, tok.n)          \* mainLoop: tokenizer / stream errors
